@@ -2,7 +2,7 @@
 from sa import rules as RU
 from sa.cfg import Typestate, dominators, ev_dominates
 from sa.rules import argstr, where
-from sa.num import Poly
+from sa.num import Num, Poly, Limit, entails
 
 PQ = "source/priority_queue.c"
 SIZE_MAX = 2 ** 64 - 1
@@ -134,8 +134,48 @@ def valid_without_handles(R, P):
             "a queue that never got a handle is reported invalid (%s): aws_task_scheduler_clean_up tests the scheduler's validity before it cancels the pending tasks, so a scheduler that only ever saw run-now tasks drops them without invoking them" % bad)
 
 
+def set_at_length(R, P):
+    """LOCKSTEP/set_at: the handle array is created lazily by the first aws_array_list_set_at(&backpointers, .., index) with
+    index = (element count - 1), possibly far beyond its length 0.  NUM, every successful return of aws_array_list_set_at:
+    the list's length is index + 1 when index was at or beyond the old length, and unchanged otherwise - so that the handle
+    array is as long as the element array afterwards (the clear loop and remove's `last handle` read rely on it)."""
+    f = P.fn("aws_array_list_set_at")
+    if not R.require(f is not None and len(f.params) == 3, "aws_array_list_set_at not found"):
+        return
+    from sa.awslib import AwsHooks
+    num = Num(f, P, AwsHooks(), max_paths=4000)
+    rets = [x for b in f.blocks.values() for x in b.elems if x["k"] == "ret"]
+    try:
+        sts = num.states_at({r["id"] for r in rets})
+    except Limit as ex:
+        R.broken(str(ex))
+        return
+    ok, det, n = True, "", 0
+    for r in rets:
+        for st in sts.get(r["id"], []):
+            rv = num.val(r["a"][0], st) if r.get("a") else None
+            if rv is None or not rv.is_const() or rv.cval() != 0:
+                continue
+            n += 1
+            idx = st.env.get("v:" + f.params[2]["n"])
+            lens = [(k, v) for k, v in st.env.items() if (st.meta.get(k) or (None, None))[:2] == ("aws_array_list", "length")]
+            if idx is None or len(lens) != 1:
+                ok, det = False, "length / index not tracked"
+                continue
+            k, L1 = lens[0]
+            a0 = (st.notes.get("orig") or {}).get(k)
+            L0 = Poly.atom(a0) if a0 else None
+            grown = entails(st, L1 - idx - 1) and entails(st, idx + 1 - L1)
+            same = L0 is not None and entails(st, L1 - L0) and entails(st, L0 - L1) and entails(st, idx + 1 - L0)
+            if not (grown or same):
+                ok, det = False, "length becomes %r for index %r (old length %r)" % (L1, idx, L0)
+    R.check(ok and n >= 1, "LOCKSTEP", "set_at:length-covers-the-index", "%s()" % f.name, "after a successful set_at the length is index + 1 or unchanged (%d states)" % n,
+            "aws_array_list_set_at leaves the list shorter than index + 1 (%s): the lazily created handle array stays shorter than the element array, so remove / clear do not reach the handle they must invalidate" % det)
+
+
 def queue_rules(R, P):
     valid_without_handles(R, P)
+    set_at_length(R, P)
     fns = {f.name: f for f in P.functions_in("source/priority_queue.c")}
     need = ["s_swap", "s_sift_down", "s_sift_up", "s_sift_either", "aws_priority_queue_push_ref", "s_remove_node", "aws_priority_queue_remove", "aws_priority_queue_pop",
             "aws_priority_queue_top", "aws_priority_queue_clear", "aws_priority_queue_node_init", "aws_priority_queue_node_is_in_queue"]
